@@ -387,7 +387,8 @@ BodyReadDeadline(id) ==
 RecvAbort(id) ==
   /\ srv[id].st = "needmem" /\ ~srv[id].live
   /\ srv' = [srv EXCEPT ![id].st = "gone"]
-  /\ UNCHANGED <<call, writeQ, inFlight, cli, c2s, s2c, link, proxy, sconn, orph, pool, mem, srvSt, pend>>
+  /\ mem' = HeldAfterAbort(mem, Take(id))          \* an aborted wait gives nothing back (MemBound checks it)
+  /\ UNCHANGED <<call, writeQ, inFlight, cli, c2s, s2c, link, proxy, sconn, orph, pool, srvSt, pend>>
 
 (* workerPool.Get (blocks while created = MaxWorkers and none is free; has *)
 (* no context, so it is not interrupted by a close) + hand-over of work    *)
